@@ -46,6 +46,24 @@ FOCUS_R5 = {
     "C20": "the free paths of lib/lha_file_header.c (strings replaced by later extended headers, lha_file_header_free / add_ref), lha_decoder_free and the decoders' own free callbacks, lib/macbinary.c, lha_basic_reader_free, lha_input_stream_free",
 }
 
+# round 6: environment, time, identities, order of entries, option combinations, arithmetic at the extremes
+FOCUS_R6 = {
+    "C06": "the interplay of the extracting user (root or not), umask, recorded owner/group ids and time stamps with the ORDER of entries in the archive (a directory after its contents, the same path twice, a file and later a directory of the same name, the entries of one directory scattered over the archive), the 'p' command, w= values with trailing slashes or dots",
+    "C07": "members of length 0, members whose recorded length is 0 although data is present, very small members of every method, '-lhd-' entries that carry data, the 't' command combined with i / w= / patterns, agreement between 't' and 'x' on the same archive, initial state of the CRC",
+    "C08": "the tool's option parser and pattern code with odd command lines (empty strings, very long arguments, '-' alone, repeated or unknown option letters, w= without a value), header fields at their extremes (time 0 and maximum, lengths 0 and maximum, every OS byte, every header level byte) as they reach src/list.c and src/extract.c",
+    "C09": "the helper routines that build and walk code tables (lib/tree_decode.c build_tree / read_from_tree, the length-reading helpers of lh_new_decoder), the block counter and the history ring exactly at their wrap points, the tree rebuild of lib/lh1_decoder.c when frequencies overflow, the history list rebuild of lib/pm2_decoder.c",
+    "C10": "option combinations of the tool (i together with w=, f, the q levels, patterns), dry run versus real run, the order of entries (one name as file, then as directory, then as link), stripping of leading slashes, names made only of dots and separators",
+    "C11": "headers that give the 0x01 and 0x02 extended headers several times, very long paths (beyond 255 and beyond 4096 bytes), paths made only of separators, Unix names containing backslashes, OS-9/68k and Human68k conventions, symlink 'a|b' where a or b contain further '|' characters",
+    "C12": "end-of-archive detection (the zero byte, a level-2/3 length of zero), what follows an end marker, header-level byte values 4..255, header sizes exactly at their minimum, byte-order slips in size fields, a common (0x00) extended header with information bytes behind the CRC",
+    "C13": "arithmetic in src/list.c and src/extract.c (progress bars for lengths 0, 1 and 2^32-1, divisions, loops that print dots or blocks), lengths near the maximum in lib/lha_decoder.c and lib/lha_basic_reader.c ('remaining' counters), directory entries that declare huge sizes",
+    "C14": "the block arithmetic of the progress monitor (total_blocks for lengths that are multiples of the block size, 0, 1, block_size-1, block_size+1, huge), the CRC across zero-length reads, lha_decoder_monitor called twice or late, decoders whose block_size differs",
+    "C15": "re-presented (fake) entries: extracting them under another name, reading or checking them, is_fake right after start and after the end; END_OF_DIR with directory names that are prefixes of one another, with an empty path, with './' prefixes and absolute paths; directories given twice",
+    "C16": "garbage or a second archive after the end marker, self-extractor prefixes that end exactly on the edges of the 24-byte window, a marker cut by the 256 KiB limit, '-' combined with options and patterns, very short inputs (0..30 bytes) on every stream kind",
+    "C18": "every place where the tool formats a NUMBER or a table entry derived from a header: sizes, ratios, CRCs, dates (month table with out-of-range months), OS-name table, header-level column, permission strings; error messages built with strerror; the usage text path",
+    "C19": "ratio rounding (packed*1000/length at .x5 boundaries, 999.9, packed > length), totals over members with and without sizes, the file count in the footer, fixed-offset time zones and negative or pre-1980 times, DOS time stamps with out-of-range fields, name column for symlinks and directories",
+    "C20": "stream objects: lha_input_stream_from on a missing or unreadable file, lha_input_stream_from_FILE, callback tables with NULL skip or NULL close, freeing a stream whose lead-in buffer still holds bytes, lha_reader_new after a failed stream; decoders whose init fails; header reference counting when one header sits in two lists",
+}
+
 
 def prop_text(d):
     return "Property %s: %s\n\nStatement: %s\n\nQuantifier: %s\n\nWhy the existing tests cannot settle it: %s\n\nWhere it lives in the code (anchors): files %s\nMechanisms:\n%s\n" % (
@@ -55,7 +73,7 @@ def prop_text(d):
 
 def main():
     rdir, rname = sys.argv[1], sys.argv[2]
-    focus_table = {"fourth": FOCUS_R4, "fifth": FOCUS_R5}.get(rname, FOCUS_R5)
+    focus_table = {"fourth": FOCUS_R4, "fifth": FOCUS_R5, "sixth": FOCUS_R6}.get(rname, FOCUS_R6)
     os.makedirs(rdir, exist_ok=True)
     props = {}
     for l in open(os.path.join(VERIF, "properties.jsonl")):
